@@ -301,26 +301,14 @@ Proof.
 Qed.
 
 (* ---- close ---- *)
+(* one poll_close call: nothing is written, the queue is untouched; the carrier completed a
+   shutdown exactly when Ok is reported *)
 Lemma poll_close_spec script w sent r w' sent' script' sh :
   poll_close script w sent = (r, w', sent', script', sh) ->
-  WInv w ->
-  WInv w' /\ sent' ++ qbytes w' = sent ++ qbytes w /\
-  (r = WOk -> qbytes w' = [] /\ frames w' = [] /\ curf w' = None /\ sh = true) /\
-  (sh = true -> r = WOk).
+  w' = w /\ sent' = sent /\ (r = WOk <-> sh = true).
 Proof.
-  unfold poll_close. intros H Hinv.
-  assert (Hsd : forall sc r2 sh2 sc2, shutdown1 sc = (r2, sh2, sc2) -> (r2 = WOk -> sh2 = true) /\ (sh2 = true -> r2 = WOk)).
-  { intros sc r2 sh2 sc2 E. unfold shutdown1 in E. destruct sc as [|[|n|] t]; injection E as <- <- <-; split; congruence. }
-  destruct (queue_nonempty w) eqn:Hq.
-  - destruct (flush script w sent) as [[[r1 w1] s1] sc1] eqn:E.
-    apply flush_spec in E; [|exact Hinv]. destruct E as (_ & Hi1 & Hq1 & Hok1).
-    destruct r1; try (injection H as <- <- <- <- <-; repeat split; auto; discriminate).
-    destruct (shutdown1 sc1) as [[r2 sh2] sc2] eqn:E2. injection H as <- <- <- <- <-.
-    destruct (Hok1 eq_refl) as (Hf1 & Hf2 & _). destruct (Hsd _ _ _ _ E2) as (Ha & Hb).
-    repeat split; auto. unfold qbytes. now rewrite Hf1, Hf2.
-  - destruct (shutdown1 script) as [[r2 sh2] sc2] eqn:E2. injection H as <- <- <- <- <-.
-    apply queue_nonempty_false in Hq. destruct Hq as (Hq0 & Hf1 & Hf2). destruct (Hsd _ _ _ _ E2) as (Ha & Hb).
-    repeat split; auto.
+  unfold poll_close, shutdown1. intros H.
+  destruct script as [|[|n|] t]; injection H as <- <- <- <- <-; repeat split; congruence.
 Qed.
 
 Definition clean_ev (e : wev) : Prop := match e with WErr => False | WChunk n => n <> 0 | WPending => True end.
@@ -364,39 +352,14 @@ Proof.
     + injection H as _ _ <- _. reflexivity.
 Qed.
 
-(* Substream::close(self): conservation always; when it completes over a carrier that never
-   failed, everything queued went out and the carrier was shut down. *)
+(* Substream::close(self): nothing is written; over a carrier that does not fail a completed
+   close has shut the carrier down *)
 Lemma close_all_spec script w sent r np w' sent' script' sh :
   close_all script w sent = (r, np, w', sent', script', sh) ->
-  WInv w ->
-  WInv w' /\ sent' ++ qbytes w' = sent ++ qbytes w /\
-  (r = WOk -> Forall clean_ev script -> qbytes w' = [] /\ sh = true).
+  w' = w /\ sent' = sent /\ (r = WOk -> Forall clean_ev script -> sh = true).
 Proof.
-  unfold close_all. intros H Hinv.
-  set (pre := if queue_nonempty w then flush_all (S (length script)) script w sent 0 else (WOk, 0, w, sent, script)) in *.
-  destruct pre as [[[[r0 np0] w1] s1] sc1] eqn:Epre.
-  assert (Hpre : WInv w1 /\ s1 ++ qbytes w1 = sent ++ qbytes w /\ (r0 = WOk -> qbytes w1 = []) /\
-                 (r0 = WPend \/ r0 = WOk \/ r0 = WIo) /\
-                 (Forall clean_ev script -> r0 <> WIo /\ Forall clean_ev sc1)).
-  { unfold pre in Epre. destruct (queue_nonempty w) eqn:Hq.
-    - pose proof (flush_all_res _ _ _ _ _ _ _ _ _ _ Epre) as Hres.
-      pose proof (flush_all_clean _ _ _ _ _ _ _ _ _ _ Epre) as Hcl.
-      apply flush_all_spec in Epre; [|exact Hinv]. destruct Epre as (Hi & Hs & Hok).
-      split; [exact Hi|]. split; [exact Hs|]. split; [|split; [exact Hres|exact Hcl]].
-      intros Hr. destruct (Hok Hr) as (Hf1 & Hf2 & _). unfold qbytes. now rewrite Hf1, Hf2.
-    - injection Epre as <- <- <- <- <-. apply queue_nonempty_false in Hq.
-      split; [exact Hinv|]. split; [reflexivity|]. split; [tauto|]. split; [auto|].
-      intros Hc. split; [discriminate|exact Hc]. }
-  destruct Hpre as (Hi1 & Hs1 & Hq1 & Hres & Hcl).
-  destruct r0.
-  - injection H as <- <- <- <- <- <-. repeat split; auto. discriminate.
-  - destruct (shutdown_all sc1 np0) as [[[r2 np2] sh2] sc2] eqn:E. injection H as <- <- <- <- <- <-.
-    split; [exact Hi1|]. split; [exact Hs1|]. intros Hr Hc. split; [auto|].
-    destruct (Hcl Hc) as (_ & Hc1). eapply shutdown_all_clean; eauto.
-  - exfalso. destruct Hres as [Hx|[Hx|Hx]]; discriminate.
-  - exfalso. destruct Hres as [Hx|[Hx|Hx]]; discriminate.
-  - destruct (shutdown_all sc1 np0) as [[[r2 np2] sh2] sc2] eqn:E. injection H as <- <- <- <- <- <-.
-    split; [exact Hi1|]. split; [exact Hs1|]. intros Hr Hc. destruct (Hcl Hc) as (Hx & _). congruence.
+  unfold close_all. intros H. destruct (shutdown_all script 0) as [[[r2 np2] sh2] sc2] eqn:E.
+  injection H as <- <- <- <- <- <-. repeat split. intros Hr Hc. eapply shutdown_all_clean; eauto.
 Qed.
 
 (* ---- operation histories ---- *)
@@ -440,13 +403,11 @@ Proof.
       now rewrite !app_nil_r, Hfr.
     + rewrite (Hr2 Hg). rewrite (Hno (Hr2 Hg)). unfold wire_of. cbn [app map concat]. reflexivity.
   - destruct (poll_close (wscript s) (ws s) (sent s)) as [[[[r0 w] sn] sc] sh] eqn:E.
-    injection H as <- <-. apply poll_close_spec in E; [|exact Hi].
-    destruct E as (Hi' & Hq & _). cbn [ws sent]. split; [exact Hi'|]. rewrite Hq. cbn [accepted flat_map].
-    now rewrite Hnil.
+    injection H as <- <-. apply poll_close_spec in E. destruct E as (-> & -> & _). cbn [ws sent].
+    split; [exact Hi|]. cbn [accepted flat_map]. now rewrite Hnil.
   - destruct (close_all (wscript s) (ws s) (sent s)) as [[[[[r0 np] w] sn] sc] sh] eqn:E.
-    injection H as <- <-. apply close_all_spec in E; [|exact Hi].
-    destruct E as (Hi' & Hq & _). cbn [ws sent]. split; [exact Hi'|]. rewrite Hq. cbn [accepted flat_map].
-    now rewrite Hnil.
+    injection H as <- <-. apply close_all_spec in E. destruct E as (-> & -> & _). cbn [ws sent].
+    split; [exact Hi|]. cbn [accepted flat_map]. now rewrite Hnil.
 Qed.
 
 Lemma run_ops_inv bp c : forall ops s rs s',
@@ -1008,37 +969,46 @@ Proof.
   rewrite Hqe, app_nil_r in Hq2. rewrite Hq2, Hq1. reflexivity.
 Qed.
 
-(* a history ending in a poll_close that reports completion: everything handed over is with the
-   carrier, and the carrier was shut down after it *)
-Lemma hist_close_flushes bp c script ops rs r s' :
-  run_ops bp c (init_sys script) (ops ++ [OClose]) = (rs ++ [r], s') ->
-  Forall2 good ops rs -> fst r = WOk ->
+(* a history whose last flush completed, followed by a poll_close that reports completion:
+   everything handed over is with the carrier, nothing is queued, the carrier is shut down *)
+Lemma hist_close_after_flush bp c script ops rs rf rc s' :
+  run_ops bp c (init_sys script) (ops ++ [OFlush; OClose]) = (rs ++ [rf; rc], s') ->
+  Forall2 good ops rs -> fst rf = WOk -> fst rc = WOk ->
   sent s' = wire_of c (accepted c ops) /\ qbytes (ws s') = [] /\ shut s' = true.
 Proof.
-  intros H Hg Hok. rewrite run_ops_app in H.
+  intros H Hg Hf Hc. rewrite run_ops_app in H.
   destruct (run_ops bp c (init_sys script) ops) as [ra s1] eqn:E1.
-  cbn [run_ops step] in H. destruct (poll_close (wscript s1) (ws s1) (sent s1)) as [[[[r0 w] sn] sc] sh] eqn:E2.
+  cbn [run_ops step] in H. destruct (flush (wscript s1) (ws s1) (sent s1)) as [[[r0 w] sn] sc] eqn:E2.
+  cbn [wscript ws sent shut] in H.
+  destruct (poll_close sc w sn) as [[[[r1 w2] sn2] sc2] sh] eqn:E3.
   injection H as H1 H2. subst s'.
-  apply app_inj_tail in H1. destruct H1 as (-> & <-). cbn [fst] in Hok. subst r0.
+  pose proof (run_ops_length _ _ _ _ _ _ E1) as Hl1.
+  assert (Hl2 : length ops = length rs).
+  { clear -Hg. induction Hg; cbn [length]; congruence. }
+  assert (Hra : ra = rs /\ [(r0, 0); (r1, 0)] = [rf; rc]).
+  { apply app_eq_len; [exact H1|]. lia. }
+  destruct Hra as (-> & Hrr). injection Hrr as <- <-. cbn [fst] in Hf, Hc. subst r0 r1.
   destruct (run_ops_inv _ _ _ _ _ _ E1 WInv_init Hg) as (Hi1 & Hq1).
-  apply poll_close_spec in E2; [|exact Hi1]. destruct E2 as (Hi2 & Hq2 & Hf & _).
-  destruct (Hf eq_refl) as (Hqe & _ & _ & ->). cbn [ws sent shut]. rewrite orb_true_r.
-  repeat split; auto. rewrite Hqe, app_nil_r in Hq2. rewrite Hq2, Hq1. reflexivity.
+  apply flush_spec in E2; [|exact Hi1]. destruct E2 as (_ & Hi2 & Hq2 & Hok).
+  destruct (Hok eq_refl) as (Hf1 & Hf2 & _).
+  apply poll_close_spec in E3. destruct E3 as (-> & -> & Hsh). cbn [ws sent shut].
+  assert (Hqe : qbytes w = []) by (unfold qbytes; now rewrite Hf1, Hf2).
+  rewrite (proj1 Hsh eq_refl), orb_true_r. repeat split; auto.
+  rewrite Hqe, app_nil_r in Hq2. rewrite Hq2, Hq1. reflexivity.
 Qed.
 
 (* the same for Substream::close(self), which ignores errors: over a carrier that does not fail *)
-Lemma hist_close_all_flushes bp c script ops rs s1 np w' sent' script' sh :
-  run_ops bp c (init_sys script) ops = (rs, s1) ->
-  Forall2 good ops rs ->
+Lemma hist_close_all_after_flush bp c script ops rs rf s1 np w' sent' script' sh :
+  run_ops bp c (init_sys script) (ops ++ [OFlush]) = (rs ++ [rf], s1) ->
+  Forall2 good ops rs -> fst rf = WOk ->
   close_all (wscript s1) (ws s1) (sent s1) = (WOk, np, w', sent', script', sh) ->
   Forall clean_ev (wscript s1) ->
   sent' = wire_of c (accepted c ops) /\ qbytes w' = [] /\ sh = true.
 Proof.
-  intros E1 Hg E2 Hc.
-  destruct (run_ops_inv _ _ _ _ _ _ E1 WInv_init Hg) as (Hi1 & Hq1).
-  apply close_all_spec in E2; [|exact Hi1]. destruct E2 as (_ & Hq2 & Hf).
-  destruct (Hf eq_refl Hc) as (Hqe & ->). repeat split; auto.
-  rewrite Hqe, app_nil_r in Hq2. rewrite Hq2, Hq1. reflexivity.
+  intros E1 Hg Hf E2 Hc.
+  destruct (hist_flush_complete _ _ _ _ _ _ _ E1 Hg Hf) as (Hs & Hf1 & Hf2 & _).
+  apply close_all_spec in E2. destruct E2 as (-> & -> & Hsh).
+  repeat split; auto. unfold qbytes. now rewrite Hf1, Hf2.
 Qed.
 
 Lemma roundtrip_mixed bp c wscript ops rs s' rscript polls outs st' wire' script' :
